@@ -1,6 +1,9 @@
 From Signalo Require Import Check.Common Model.Smooth.
 (* ys = outputs on xs; ys2 = outputs on the transformed samples a*x + b; cvel = final velocity on xs *)
-Record case := mk { calpha : Q; cbeta : Q; cxs : list Q; cys : list Q; cvel : Q;
+(* cv0/cx0: the state the run on cxs starts from (velocity, position estimate); fresh = (0, None); other states are
+   injected through FromGuts (e.g. a non-zero velocity with beta = 0, unreachable from a fresh filter).
+   The affine pair (ys2) is only run from the fresh state. *)
+Record case := mk { calpha : Q; cbeta : Q; cv0 : Q; cx0 : option Q; cxs : list Q; cys : list Q; cvel : Q;
                     ca : Q; cb : Q; cys2 : list Q; cpanic : bool }.
 Fixpoint ab_ref (alpha beta : Q) (st : option (Q * Q)) (xs : list Q) : list Q * Q :=
   match xs with
@@ -14,11 +17,13 @@ Fixpoint ab_ref (alpha beta : Q) (st : option (Q * Q)) (xs : list Q) : list Q * 
   end.
 Definition check (c : case) : verdict :=
   let step := ab_step (calpha c) (cbeta c) in
-  let out_ok := negb (cpanic c) && qlist_eqb (run step ab_init (cxs c)) (cys c)
-                && qeqb (velocity (exec step ab_init (cxs c))) (cvel c)
+  let s0 := {| velocity := cv0 c; abvalue := cx0 c |} in
+  let out_ok := negb (cpanic c) && qlist_eqb (run step s0 (cxs c)) (cys c)
+                && qeqb (velocity (exec step s0 (cxs c))) (cvel c)
                 && qlist_eqb (run step ab_init (map (fun x => radd (rmul (ca c) x) (cb c)) (cxs c))) (cys2 c) in
-  let '(rys, rv) := ab_ref (calpha c) (cbeta c) None (cxs c) in
+  let '(rys, rv) := ab_ref (calpha c) (cbeta c) (match cx0 c with Some x => Some (x, cv0 c) | None => None end) (cxs c) in
+  let fresh := match cx0 c with None => true | Some _ => false end in
   let spec_ok := negb (cpanic c) && qlist_eqb rys (cys c) && qeqb rv (cvel c)
-                 && qlist_eqb (map (fun y => ca c * y + cb c) (cys c)) (cys2 c)
-                 && (negb (all_eq (cxs c)) || forallb (qeqb (qnth 0 (cxs c))) (cys c)) in
+                 && (negb fresh || qlist_eqb (map (fun y => ca c * y + cb c) (cys c)) (cys2 c))
+                 && (negb fresh || negb (all_eq (cxs c)) || forallb (qeqb (qnth 0 (cxs c))) (cys c)) in
   mkv out_ok spec_ok ((3 <=? length (cxs c))%nat && negb (all_eq (cxs c))).
